@@ -1,6 +1,6 @@
 SPECIFICATION Spec
 CONSTANTS
-  Jids = {"c1"}
+  Jids = {"c1", "c2"}
   MaxVer = 2
   Ress = {"r1"}
   Froms = {"absent", "ownBare", "ownFull", "ownOther", "server", "stranger", "contact", "look1", "look2", "look3"}
